@@ -313,11 +313,14 @@ pub const ELEM_NAMES: &[&str] = &[
     "crate", "loop", "Foo", "foo", "FOO", "foo_1", "Foo_1", "a-b", "a_b", "a.b", "AB", "aB", "Total", "Price",
     "TotalPrice", "total_price", "text", "Text", "text_content", "String", "string", "Option", "Vec", "привет",
     "Привет", "a1", "a_1", "_a", "b_attr", "r", "p", "x:p",
+    // non-ASCII names with other byte alignments / widths
+    "aпривет", "é", "naïve", "日本語", "a日本", "x:привет", "ÉCOLE", "école", "straße", "İi",
 ];
 
 pub const ATTR_NAMES: &[&str] = &[
     "a", "b", "c", "id", "name", "type", "Type", "self", "xml:lang", "xmlns:h", "xmlns", "h:a", "x:a", "h:b", "Foo",
     "foo", "FOO", "a-b", "a_b", "a.b", "text", "text_attr", "b_attr", "foo_1", "привет", "value", "xmlns:x", "loop",
+    "aпривет", "abcdeé", "é", "日本語", "a日本", "xmlnsé", "xmlns:é", "xml:é", "ÉCOLE", "école",
 ];
 
 const TEXTS: &[&str] = &[
